@@ -716,17 +716,23 @@ fn witnesses(c: &mut Ctx) {
                 &format!("set_object((6,0), 1) on a document with max_id 5: max_id afterwards {}; the next add_object returned {:?}; object (6,0) is now {:?}", mid.max_id, id, x.objects.get(&(6, 0))));
         }
     }
-    // observation (malformed input, outside C11's quantifier over well-formed starting documents):
-    // delete_pages with a cyclic Parent chain never returns; the model reports `hang`
-    if let Some(_r) = c.case("observation_delete_pages_cycle", 0) {
+    // F-C11-c (fixed): delete_pages on a cyclic Parent chain returns (the walk visits every ancestor once).
+    // The real call is first made in an isolated worker with a time limit; only if it returned there is it
+    // repeated in-process for the correspondence with the model.
+    if let Some(_r) = c.case("witness_delete_pages_cycle", 0) {
         let out = crate::iso::run_isolated("C11", &["cycle".to_string()], 3000, 512);
         let d = cyclic_parent_doc();
-        c.corr(format!("step delpages 1 1 {}", show_doc(&d)), "err hang".into());
-        match out.get(0).map(|s| s.as_str()) {
-            Some("timeout") => c.count("observation.delete_pages_cyclic_parent_hangs"),
-            Some("returned") => c.count("observation.delete_pages_cyclic_parent_returns"),
-            _ => c.count("observation.delete_pages_cyclic_parent_other"),
-        }
+        let returned = out.get(0).map(|s| s == "returned").unwrap_or(false);
+        if returned {
+            c.count("observation.delete_pages_cyclic_parent_returns");
+            if let Ok(x) = guard(|| { let mut x = d.clone(); x.delete_pages(&[1]); x }) {
+                c.corr(format!("step delpages 1 1 {}", show_doc(&d)), format!("ok unit | {}", show_doc(&x)));
+                // the self-referencing root was decremented exactly once
+                let count_ok = matches!(x.objects.get(&(3, 0)), Some(Object::Dictionary(p)) if matches!(p.get(b"Count"), Ok(Object::Integer(1))));
+                if !count_ok { c.oracle_fail("delete_pages:cyclic-count", "the cyclic root's Count was not decremented exactly once", json!({"witness": "F-C11-c"})); }
+            }
+        } else { c.count("observation.delete_pages_cyclic_parent_hangs"); }
+        c.witness("F-C11-c", !returned, &format!("delete_pages(&[1]) on a page tree whose root is its own Parent: worker outcome {:?}", out.get(0)));
     }
 }
 
